@@ -7,6 +7,7 @@ import (
 	"crypto/sha256"
 	"encoding/json"
 	"fmt"
+	"math"
 	"os"
 	"path/filepath"
 	"runtime"
@@ -294,7 +295,10 @@ func (s *Set) Finish() error {
 		if c.Nontrivial {
 			distinct[sha256.Sum256([]byte(c.Term))] = true
 		}
-		b, _ := json.Marshal(map[string]interface{}{"i": i, "key": c.Key, "kind": c.Kind, "replay": c.Replay})
+		b, err := json.Marshal(map[string]interface{}{"i": i, "key": c.Key, "kind": c.Kind, "replay": c.Replay})
+		if err != nil { // a non-finite float in the replay: print it as text
+			b, _ = json.Marshal(map[string]interface{}{"i": i, "key": c.Key, "kind": c.Kind, "replay": jsonSafe(c.Replay)})
+		}
 		jw.Write(b)
 		jw.WriteByte('\n')
 	}
@@ -336,7 +340,17 @@ func (s *Set) Finish() error {
 	if s.fails == nil {
 		meta["go_fails"] = []GoFail{}
 	}
-	b, _ := json.MarshalIndent(meta, "", " ")
+	b, err := json.MarshalIndent(meta, "", " ")
+	if err != nil { // a non-finite float in a replay or in Extra: print it as text
+		for i := range s.fails {
+			s.fails[i].Replay, _ = jsonSafe(s.fails[i].Replay).(map[string]interface{})
+		}
+		meta["go_fails"] = s.fails
+		meta["extra"] = jsonSafe(s.Extra)
+		if b, err = json.MarshalIndent(meta, "", " "); err != nil {
+			return err
+		}
+	}
 	return os.WriteFile(filepath.Join(s.Dir, "meta.json"), b, 0o644)
 }
 
@@ -348,4 +362,34 @@ func Args() (dir string, seed uint64, thorough bool) {
 	}
 	sd, _ := strconv.ParseUint(os.Args[2], 10, 64)
 	return os.Args[1], sd, os.Args[3] == "thorough"
+}
+
+// jsonSafe returns v with every NaN / Inf float replaced by its printed form, which encoding/json refuses.
+func jsonSafe(v interface{}) interface{} {
+	switch x := v.(type) {
+	case map[string]interface{}:
+		if x == nil {
+			return x
+		}
+		m := make(map[string]interface{}, len(x))
+		for k, e := range x {
+			m[k] = jsonSafe(e)
+		}
+		return m
+	case []interface{}:
+		l := make([]interface{}, len(x))
+		for i, e := range x {
+			l[i] = jsonSafe(e)
+		}
+		return l
+	case float64:
+		if math.IsNaN(x) || math.IsInf(x, 0) {
+			return fmt.Sprint(x)
+		}
+	case float32:
+		if f := float64(x); math.IsNaN(f) || math.IsInf(f, 0) {
+			return fmt.Sprint(x)
+		}
+	}
+	return v
 }
